@@ -9,8 +9,8 @@ open Mustache Mustache.Model Mustache.Driver.World
 
 def violates (s : St) (ws : List String) : Bool :=
   match parseOp s.entity 0 ws with
-  | some (.assign _ e _ _) => !s.w.isLocked && !s.w.isValid e
-  | some (.build _ e _ _) => !s.w.isLocked && !s.w.isValid e
+  | some (.assign _ e c _) => !s.w.isLocked && (!s.w.isValid e || s.w.hasComp e c)
+  | some (.build _ e adds _) => !s.w.isLocked && (!s.w.isValid e || adds.any (fun p => s.w.hasComp e p.1))
   | some (.sassign e _ _) => !s.w.isValid e
   | _ => false
 
